@@ -1,12 +1,14 @@
 /-
   Source-level tie for pg_filenode.map (property C20), translator style (see `ReadsKit`): every constant-bounded read
-  of the current `ParseRelMapFile` is one whole member of PostgreSQL's `RelMapFile` (relmapper.c: magic i32,
-  num_mappings i32, mappings[62] of {mapoid, mapfilenode}, crc, pad → 512 bytes in PostgreSQL 12–15; mappings[64], crc,
-  no pad → 524 bytes in PostgreSQL 16) as laid out by `Spec.encRelMapRaw`, namely the member its assignment target
-  names.  The two members read at constant offsets (magic, num_mappings) have the same span in both layouts.
+  of the current `ParseRelMapFile` and of `relMapIsV16` (fixes/control/21) is one whole member of PostgreSQL's
+  `RelMapFile` (relmapper.c: magic i32, num_mappings i32, mappings[62] of {mapoid, mapfilenode}, crc, pad → 512 bytes in
+  PostgreSQL 12–15; mappings[64], crc, no pad → 524 bytes in PostgreSQL 16) as laid out by `Spec.encRelMapRaw`, namely
+  the member its assignment target names — or, for the two crc bodies of `relMapIsV16`, exactly the members BEFORE the
+  crc of the layout in question (the bytes the CRC-32C covers: `Spec.relmapBody`).
+  The two members read at the same constant offsets in both layouts (magic, num_mappings) have the same span in both;
+  the crc is read at 520 (`layout16`) in the `isV16` branch and at 504 (`layout`) in the other — tied in source order.
   Not covered (not constant-bounded in the source, hence absent from `Generated.SrcReads`): the mapping entries
-  (`data[offset : offset+4]`, `offset` a loop variable) and the crc (`data[crcOffset : crcOffset+4]`, `crcOffset` a
-  variable computed from the layout's MAX_MAPPINGS since fixes/control/09).
+  (`data[offset : offset+4]`, `offset` a loop variable).
 -/
 import PgVerif.Generated.Src
 import PgVerif.Spec.Relmap
@@ -89,28 +91,82 @@ theorem common_spans : layout16.span "magic".toList = layout.span "magic".toList
     layout16.span "num_mappings".toList = layout.span "num_mappings".toList ∧
     layout.span "crc".toList = some (504, 508) ∧ layout16.span "crc".toList = some (520, 524) := by decide
 
-/-- assignment target in relmap.go ↦ member of `RelMapFile` -/
+/-- assignment target in relmap.go ↦ member of `RelMapFile`.  `rm.CRC` is assigned twice, in source order: first in the
+`if isV16` branch from the crc of the PostgreSQL 16 layout, then in the `else` branch from the crc of the 12–15 layout. -/
 def expect : Expect :=
-  [fld "rm.Magic".toList layout "magic".toList, fld "rm.NumMappings".toList layout "num_mappings".toList]
+  [fld "rm.Magic".toList layout "magic".toList, fld "rm.NumMappings".toList layout "num_mappings".toList,
+   fld "rm.CRC".toList layout16 "crc".toList, fld "rm.CRC".toList layout "crc".toList]
 
 /-- **Every constant-bounded read of the current `ParseRelMapFile` is one whole `RelMapFile` member, the one its
-assignment target names** (`rm.Magic` ← magic, `rm.NumMappings` ← num_mappings). -/
+assignment target names** (`rm.Magic` ← magic, `rm.NumMappings` ← num_mappings, `rm.CRC` ← crc of the 16 layout, then
+crc of the 12–15 layout). -/
 theorem ParseRelMapFile_reads_are_spec_fields :
     readsAreFields expect Generated.SrcReads.ParseRelMapFile = true := by decide
 
-/-- and both members of the table are still read -/
+/-- and all four entries of the table are still read -/
 theorem ParseRelMapFile_expected_fields_are_read :
     expectedAreRead expect Generated.SrcReads.ParseRelMapFile = true := by decide
 
-/-- the same against the PostgreSQL 16 layout -/
+/-- the same with magic and num_mappings taken from the PostgreSQL 16 layout (they lie at the same bytes: `common_spans`) -/
 def expect16 : Expect :=
-  [fld "rm.Magic".toList layout16 "magic".toList, fld "rm.NumMappings".toList layout16 "num_mappings".toList]
+  [fld "rm.Magic".toList layout16 "magic".toList, fld "rm.NumMappings".toList layout16 "num_mappings".toList,
+   fld "rm.CRC".toList layout16 "crc".toList, fld "rm.CRC".toList layout "crc".toList]
 
 theorem ParseRelMapFile_reads_are_spec_fields_v16 :
     readsAreFields expect16 Generated.SrcReads.ParseRelMapFile = true := by decide
 
 theorem ParseRelMapFile_expected_fields_are_read_v16 :
     expectedAreRead expect16 Generated.SrcReads.ParseRelMapFile = true := by decide
+
+/-! ### relMapIsV16: the crc candidates and the bytes they cover -/
+
+/-- `before target layout member`: `target` is read from everything that precedes `member` in `layout` (offset 0 up to
+the member's first byte) — the bytes a crc member covers -/
+def before (t : List Char) (l : Layout) (m : List Char) : List Char × Option (Nat × Nat) :=
+  (t, (l.span m).map fun s => (0, s.1))
+
+/-- assignment target in relMapIsV16 ↦ bytes of `RelMapFile`: the 16 candidate (`bodyV16` = all members before the crc
+of the 16 layout, `crcV16` = that crc), then the 12–15 candidate (`body`, `crc`) -/
+def expectIsV16 : Expect :=
+  [before "bodyV16".toList layout16 "crc".toList, fld "crcV16".toList layout16 "crc".toList,
+   before "body".toList layout "crc".toList, fld "crc".toList layout "crc".toList]
+
+/-- **Every constant-bounded read of `relMapIsV16` is the crc member of one layout or exactly the bytes before it.** -/
+theorem relMapIsV16_reads_are_spec_fields :
+    readsAreFields expectIsV16 Generated.SrcReads.relMapIsV16 = true := by decide
+
+theorem relMapIsV16_expected_fields_are_read :
+    expectedAreRead expectIsV16 Generated.SrcReads.relMapIsV16 = true := by decide
+
+/-- the body spans are what the Spec's crc check covers: `Spec.relmapBody l img = img.take (offsetof crc)` -/
+theorem body_spans_are_spec :
+    (before "body".toList layout "crc".toList).2 = some (0, RelMapLayout.v12.crcOffset) ∧
+    (before "bodyV16".toList layout16 "crc".toList).2 = some (0, RelMapLayout.v16.crcOffset) ∧
+    layout.span "crc".toList = some (RelMapLayout.v12.crcOffset, RelMapLayout.v12.crcOffset + 4) ∧
+    layout16.span "crc".toList = some (RelMapLayout.v16.crcOffset, RelMapLayout.v16.crcOffset + 4) ∧
+    layout.size = RelMapLayout.v12.size ∧ layout16.size = RelMapLayout.v16.size := by decide
+
+/-- reading the body span out of the Spec encoding of a 12–15 map yields the members before the crc, back to back -/
+theorem enc_body (magic count : Nat) (m : RelMap) (h : m.WF) :
+    (encRelMapRaw magic count m).take 504 = le 4 magic ++ (le 4 count ++ (m.mappings.flatMap encMapping ++ m.unused)) := by
+  obtain ⟨h1, h2, _, _, _⟩ := h
+  unfold relmapMax at h1 h2
+  have e : encRelMapRaw magic count m =
+      (le 4 magic ++ (le 4 count ++ (m.mappings.flatMap encMapping ++ m.unused))) ++ (le 4 m.crc ++ m.pad) := by
+    simp [encRelMapRaw, List.append_assoc]
+  rw [e, List.take_left']
+  simp only [List.length_append, le_length, mappings_length, h2]; omega
+
+/-- … and of a 16 map -/
+theorem enc_body16 (magic count : Nat) (m : RelMap) (h : m.WF16) :
+    (encRelMapRaw magic count m).take 520 = le 4 magic ++ (le 4 count ++ (m.mappings.flatMap encMapping ++ m.unused)) := by
+  obtain ⟨h1, h2, _, _, _⟩ := h
+  unfold relmapMax16 at h1 h2
+  have e : encRelMapRaw magic count m =
+      (le 4 magic ++ (le 4 count ++ (m.mappings.flatMap encMapping ++ m.unused))) ++ (le 4 m.crc ++ m.pad) := by
+    simp [encRelMapRaw, List.append_assoc]
+  rw [e, List.take_left']
+  simp only [List.length_append, le_length, mappings_length, h2]; omega
 
 example : (⟨[], zeros 512, 7, []⟩ : RelMap).WF16 ∧ layout16.span "crc".toList = some (520, 524) :=
   ⟨by simp [RelMap.WF16, relmapMax16], by decide⟩
